@@ -1263,6 +1263,29 @@ pub fn corpus() -> Vec<CorpusProg> {
         ],
         safe(true, &["singleton-zip", "count", "bounded-source", "known-finding"]),
     );
+    b.add(
+        "k_bounded_join_unbounded_count",
+        &["(i64,i64)"],
+        &[],
+        &[("usize", Seq, None, Ref::Eventual(|f| enc(vec![kvs(f, 0).iter().filter(|(k, _)| *k == 1).count() * 2])))],
+        safe(true, &["join", "count", "bounded-source", "known-finding"]),
+    );
+    b.add(
+        "k_bounded_join_unbounded_selfjoin",
+        &["(i64,i64)"],
+        &[],
+        &[(
+            "(i64,(i64,i64))",
+            Bag,
+            None,
+            Ref::Eventual(|f| {
+                let bb = vec![(1i64, 6i64), (1, 7)];
+                let j: Vec<(i64, i64)> = join_pairs(&bb, &kvs(f, 0)).into_iter().map(|(k, (a, b))| (k, a * 10 + b)).collect();
+                enc(join_pairs(&j, &j))
+            }),
+        )],
+        safe(true, &["join", "bounded-source", "known-finding"]),
+    );
     let _ = json!(null);
     b.progs
 }
